@@ -15,6 +15,8 @@
 
 namespace he {
 
+using isal::call_fn;
+
 enum { K_SUBMIT = 0, K_FLUSH = 1, K_BAD = 2 };
 enum { BAD_FLAGS = 0, BAD_PROCESSING = 1, BAD_COMPLETED = 2 };
 
@@ -238,8 +240,8 @@ static inline bool execute(const Case &cs, const isal::HashFamily &f, pbt::Ctx &
         // ---- init
         int rc = 0;
         bool okc = guard::guarded_call(fi, [&] {
-                if (f.is_isal()) rc = f.i_init(mgr);
-                else f.init(mgr);
+                if (f.is_isal()) rc = (int) call_fn((void *) f.i_init, { (uint64_t) mgr });
+                else call_fn((void *) f.init, { (uint64_t) mgr });
         });
         if (!okc) {
                 A.describe(fi);
@@ -376,8 +378,8 @@ static inline bool execute(const Case &cs, const isal::HashFamily &f, pbt::Ctx &
                         void *cptr = m.c;
                         st.calls++;
                         okc = guard::guarded_call(fi, [&] {
-                                if (f.is_isal()) rc = f.i_submit(mgr, cptr, &r, buf, cm.len, flags);
-                                else r = f.submit(mgr, cptr, buf, cm.len, flags);
+                                if (f.is_isal()) rc = (int) call_fn((void *) f.i_submit, { (uint64_t) mgr, (uint64_t) cptr, (uint64_t) &r, (uint64_t) buf, cm.len, (uint64_t) (uint32_t) flags });
+                                else r = (void *) call_fn((void *) f.submit, { (uint64_t) mgr, (uint64_t) cptr, (uint64_t) buf, cm.len, (uint64_t) (uint32_t) flags });
                         });
                         if (!okc) {
                                 A.describe(fi);
@@ -403,8 +405,8 @@ static inline bool execute(const Case &cs, const isal::HashFamily &f, pbt::Ctx &
                         rc = 0;
                         st.calls++;
                         okc = guard::guarded_call(fi, [&] {
-                                if (f.is_isal()) rc = f.i_flush(mgr, &r);
-                                else r = f.flush(mgr);
+                                if (f.is_isal()) rc = (int) call_fn((void *) f.i_flush, { (uint64_t) mgr, (uint64_t) &r });
+                                else r = (void *) call_fn((void *) f.flush, { (uint64_t) mgr });
                         });
                         if (!okc) {
                                 A.describe(fi);
@@ -461,8 +463,8 @@ static inline bool execute(const Case &cs, const isal::HashFamily &f, pbt::Ctx &
                         void *cptr = m->c;
                         st.calls++;
                         okc = guard::guarded_call(fi, [&] {
-                                if (f.is_isal()) rc = f.i_submit(mgr, cptr, &r, buf, cm.len, flags);
-                                else r = f.submit(mgr, cptr, buf, cm.len, flags);
+                                if (f.is_isal()) rc = (int) call_fn((void *) f.i_submit, { (uint64_t) mgr, (uint64_t) cptr, (uint64_t) &r, (uint64_t) buf, cm.len, (uint64_t) (uint32_t) flags });
+                                else r = (void *) call_fn((void *) f.submit, { (uint64_t) mgr, (uint64_t) cptr, (uint64_t) buf, cm.len, (uint64_t) (uint32_t) flags });
                         });
                         if (!okc) {
                                 A.describe(fi);
@@ -507,8 +509,8 @@ static inline bool execute(const Case &cs, const isal::HashFamily &f, pbt::Ctx &
                         rc = 0;
                         int hc = held_count();
                         okc = guard::guarded_call(fi, [&] {
-                                if (f.is_isal()) rc = f.i_flush(mgr, &r);
-                                else r = f.flush(mgr);
+                                if (f.is_isal()) rc = (int) call_fn((void *) f.i_flush, { (uint64_t) mgr, (uint64_t) &r });
+                                else r = (void *) call_fn((void *) f.flush, { (uint64_t) mgr });
                         });
                         if (!okc) {
                                 A.describe(fi);
